@@ -316,7 +316,9 @@ def run(ctx):
     # pipeline faults (their messages mention types and variables)
     import pipes
     for i in range(60 if quick else 600):
-        s2, name, owner, desc = pipes.mutate_p(rng, only=("C08", "C09"), threads=(i % 2 == 1))
+        # (every third one a fault whose message names types or objects)
+        only = ("p_object_type_mismatch", "p_output_type_mismatch", "p_agg_unfit") if i % 3 == 0 else ("C08", "C09")
+        s2, name, owner, desc = pipes.mutate_p(rng, only=only, threads=(i % 2 == 1))
         xdocs.append(S.render(s2, random.Random(rng.randrange(1 << 30)), "id" if name in M.FORCE_ID_SPELLING else "mixed", False, False))
     for _ in range(60 if quick else 600):
         s2, name, owner, desc = M.mutate(rng, only=("C06", "C10", "C02"))
